@@ -591,4 +591,98 @@ example : (toGenClosing { txid := 7, our := some (0, true), htlcOutputs := [1], 
 example : (toGen (State.init 5 7 0 [])).apply_forward_change [] [] (toGenChange (.ourSpent 0)) = .error .panic := by
   rw [C14_fn_apply_forward]; rfl
 
+
+/-! ### The streamed-block entry points of the listener: `ChainMonitor::{on_add_streamed_block_end,
+on_remove_streamed_block_end, on_streamed_block_abort}`
+
+`self.get_state()` is inlined (declared normalisation), `self.decode_state.lock().expect("lock")` is the identity on the
+protected `Option<BlockDecodeState>`. -/
+
+abbrev GMon := Gen.FnMonitorC14.ChainMonitor Nat Nat
+
+/-- `on_streamed_block_abort` drops the per-block decode state and touches nothing else -/
+theorem C14_fn_streamed_abort (m : GMon) :
+    m.on_streamed_block_abort = { m with decode_state := none } := rfl
+
+/-- **the decode state never survives the end of a streamed block**: whatever `on_add_streamed_block_end` returns
+    (also when the monitor "is not ready yet"), the monitor holds no `BlockDecodeState` afterwards — the next streamed
+    block starts from a fresh copy of the state (`on_push`: `get_or_insert_with(BlockDecodeState::new)`). -/
+theorem C14_fn_add_streamed_end_clears (m : GMon) (bh : Nat) (r : GMon × (List GOp × List GOp))
+    (h : m.on_add_streamed_block_end bh = .ok r) : r.1.decode_state = none := by
+  unfold Gen.FnMonitorC14.ChainMonitor.on_add_streamed_block_end at h
+  simp only [] at h
+  split at h
+  · cases h; rfl
+  · cases hd : m.decode_state with
+    | none => simp [hd, Rs.unwrap, Rs.panic, Rs.bind_err] at h
+    | some ds =>
+      simp only [hd, Rs.unwrap, Rs.bind_ok, Rs.pure_eq] at h
+      cases he : Gen.FnMonitorC14.State.on_add_block_end m.state bh ds with
+      | error e => simp [he] at h
+      | ok v =>
+        obtain ⟨s3, m4, r5⟩ := v
+        simp only [he, Rs.bind_ok] at h
+        cases h; rfl
+
+theorem C14_fn_remove_streamed_end_clears (m : GMon) (bh : Nat) (r : GMon × (List GOp × List GOp))
+    (h : m.on_remove_streamed_block_end bh = .ok r) : r.1.decode_state = none := by
+  unfold Gen.FnMonitorC14.ChainMonitor.on_remove_streamed_block_end at h
+  simp only [] at h
+  split at h
+  · cases h; rfl
+  · cases hd : m.decode_state with
+    | none => simp [hd, Rs.unwrap, Rs.panic, Rs.bind_err] at h
+    | some ds =>
+      simp only [hd, Rs.unwrap, Rs.bind_ok, Rs.pure_eq] at h
+      cases he : Gen.FnMonitorC14.State.on_remove_block_end m.state bh ds with
+      | error e => simp [he] at h
+      | ok v =>
+        obtain ⟨s3, m4, r5⟩ := v
+        simp only [he, Rs.bind_ok] at h
+        cases h; rfl
+
+/-- a monitor that has not seen a block start yet ignores the streamed block: no deltas, state unchanged -/
+theorem C14_fn_streamed_end_not_ready (m : GMon) (bh : Nat) (hs : m.state.saw_block = false) :
+    m.on_add_streamed_block_end bh = .ok ({ m with decode_state := none }, ([], [])) ∧
+    m.on_remove_streamed_block_end bh = .ok ({ m with decode_state := none }, ([], [])) := by
+  unfold Gen.FnMonitorC14.ChainMonitor.on_add_streamed_block_end
+    Gen.FnMonitorC14.ChainMonitor.on_remove_streamed_block_end
+  simp [hs]
+
+/-- **`on_add_streamed_block_end` = `Monitor.addEnd`** on the changes the push listener gathered (`cs`, detected on the
+    temporary copy `t`), for a monitor that has seen the block start; the result holds no decode state -/
+theorem C14_fn_add_streamed_end (s t : Monitor.State) (cs : List Change) (bh : Nat)
+    (hsb : s.sawBlock = true) (hh : s.height + 2 ≤ Rs.U32_MAX) :
+    ({ state := toGen s, decode_state := some (toGenDS bh cs t) } : GMon).on_add_streamed_block_end bh
+      = ofOpt (fun d : Delta => (({ state := toGen d.1, decode_state := none } : GMon),
+                                 (d.2.1.map toGenOp, d.2.2.map toGenOp))) (addEnd s cs) := by
+  unfold Gen.FnMonitorC14.ChainMonitor.on_add_streamed_block_end
+  have hsb' : (toGen s).saw_block = true := hsb
+  simp only [hsb', Bool.not_true, Bool.false_eq_true, if_false, Rs.unwrap, Rs.bind_ok, Rs.pure_eq,
+    C14_fn_on_add_block_end s t cs bh hh]
+  cases addEnd s cs with
+  | none => rfl
+  | some d => rfl
+
+/-- **`on_remove_streamed_block_end` = `Monitor.removeEnd`** (monitor above height 0, block start seen) -/
+theorem C14_fn_remove_streamed_end (s t : Monitor.State) (cs : List Change) (bh : Nat)
+    (hsb : s.sawBlock = true) (hp : 0 < s.height) :
+    ({ state := toGen s, decode_state := some (toGenDS bh cs t) } : GMon).on_remove_streamed_block_end bh
+      = ofOpt (fun d : Delta => (({ state := toGen d.1, decode_state := none } : GMon),
+                                 (d.2.1.map toGenOp, d.2.2.map toGenOp))) (removeEnd s cs) := by
+  unfold Gen.FnMonitorC14.ChainMonitor.on_remove_streamed_block_end
+  have hsb' : (toGen s).saw_block = true := hsb
+  simp only [hsb', Bool.not_true, Bool.false_eq_true, if_false, Rs.unwrap, Rs.bind_ok, Rs.pure_eq,
+    C14_fn_on_remove_block_end s t cs bh hp]
+  cases removeEnd s cs with
+  | none => rfl
+  | some d => rfl
+
+/-- a ready monitor without a decode state (no `on_push` before the end of the block) aborts: the `unwrap` -/
+theorem C14_fn_streamed_end_no_decode_state (s : Monitor.State) (bh : Nat) (hsb : s.sawBlock = true) :
+    ({ state := toGen s, decode_state := none } : GMon).on_add_streamed_block_end bh = .error .panic := by
+  unfold Gen.FnMonitorC14.ChainMonitor.on_add_streamed_block_end
+  have hsb' : (toGen s).saw_block = true := hsb
+  simp [hsb', Rs.unwrap, Rs.panic]
+
 end VlsModel.Props.C14Fn
